@@ -37,11 +37,14 @@ def run(chk):
         r3(chk, T, name)
         r5(chk, T, name)
         r6(chk, T, name)
+    from .. import numrules
+    numrules.rule_split_numbers(chk, prog, "C03.R8", maxlen=4 if chk.tier == "quick" else 12,
+                                modes=((0, "default"),) if chk.tier == "quick" else ((0, "default"), (F_STRICT, "strict")))
     chk.undecided_clauses += [
         "equality of the *values* produced by a split and an unsplit parse (only status, value presence, end position and successor "
-        "configuration are compared; token text is opaque)",
-        "the number state re-derives its sign/exponent flags from the saved text when resumed; whether the re-derivation equals the "
-        "carried flags is value-level (it is known not to: '[1' + '-5]' parses, DESIGN.md F13)",
+        "configuration are compared; literal token text is opaque, number text is modelled by R8)",
+        "numbers: R8 compares two-byte calls with two one-byte calls from every reachable (configuration, saved text) pair; longer "
+        "chunkings follow by induction on the carried scan state, which the comparison shows equivalent to the re-derived one",
         "VALIDATE_UTF8 interplay beyond R1 (thorough tier explores the flag)",
     ]
 
